@@ -292,6 +292,11 @@ def run(ctx: Ctx, env):
 
 def _events_total(ctx: Ctx, env, rule_id: str, key: str, x, module, production=None, rule=None) -> bool:
     ok = True
+    summarised = [ev for ev in x.events if ev.kind == "summarised_by_annotation"]
+    if summarised and any(ev.kind in FOREIGN_EVENTS or (ev.kind == "may_raise" and not ev.data.get("caught")) for ev in x.events):
+        # totality would have to be argued from the inside of a function the analysis could only replace by its annotation
+        raise AnalysisError(f"{key}: whether this callback is total depends on {summarised[0].data.get('func')}, which contains a loop "
+                            "outside the supported forms", summarised[0].where)
     for ev in x.events:
         if ev.kind in FOREIGN_EVENTS:
             detail = FOREIGN_EVENTS[ev.kind]
